@@ -131,6 +131,7 @@ def run(tier):
     serial_order(prog, res)
     input_range(prog, res)
     job_ring(prog, res, fns)
+    job_scans_cover_the_ring(prog, res, fns)
     mt_reset(prog, res, fns)
     return res.finish(
         explanation="Lockset (guarded-by) with per-access semantic exceptions (pre-publication before "
@@ -512,6 +513,41 @@ def job_ring(prog, res, fns):
     res.check(len(full) == 1 and bool(wr) and c.must_pass(via_edges=full, targets=wr), "T3.ring-full-test",
               "ZSTDMT_createCompressionJob", c.loc, "no job slot is written unless nextJobID <= doneJobID + jobIDMask",
               "a job slot can be overwritten while its previous job is still in flight")
+
+
+def job_scans_cover_the_ring(prog, res, fns):
+    """T12: the jobs in flight are those with doneJobID <= id < nextJobID (finished-but-not-flushed ones included).  A loop that
+    walks the jobs starting from doneJobID - to find the input still in use, to wait for completion, to report progress - must
+    not stop short of nextJobID: its limit is nextJobID plus non-negative terms (linear form; a MIN(), a count of workers or any
+    other cap is not).  Stopping short hands a range that a late job still reads back to the input ring."""
+    from ..rules.linear import linear, fmt
+    R = "T12.job-scan-covers-the-ring"
+    n = 0
+    for f in fns:
+        for bid, cond, t, fl in f.branches():
+            c = strip_casts(f.resolve_x(cond))
+            if c is None or c.get("k") != "bin" or c.get("op") not in ("<", "!="):
+                continue
+            lhs, rhs = strip_casts(f.resolve_x(c["lhs"])), strip_casts(f.resolve_x(c["rhs"]))
+            if lhs is None or rhs is None:
+                continue
+            from_done = False
+            if lhs.get("k") == "mem" and lhs.get("f") == "doneJobID":
+                from_done = True
+            elif lhs.get("k") == "ref" and lhs.get("rk") in ("l", "sl"):
+                ds = [d for d in f.local_defs().get(lhs["n"], []) if d is not None]
+                from_done = any(any(y.get("k") == "mem" and y.get("f") == "doneJobID" for y in f.walk_deep(d)) for d in ds)
+            if not from_done:
+                continue
+            lin = linear(f, rhs)
+            n += 1
+            ok = lin is not None and any("nextJobID" in str(k) and v == 1 for k, v in lin.items()) and all(v >= 0 for v in lin.values()) \
+                and all(("nextJobID" in str(k)) or k == 1 or "jobReady" in str(k) for k in lin)
+            res.check(ok, R, "%s@%s" % (f.name, c.get("l") or bid), f.loc, "limit = %s" % fmt(lin),
+                      "%s walks the jobs from doneJobID up to `%s`, which is not nextJobID (+ non-negative terms): jobs in flight beyond that limit are not "
+                      "seen - with nbWorkers finished-but-unflushed jobs ahead of a running one, ZSTDMT_getInputDataInUse reports nothing in use and the input "
+                      "ring hands out the range that job is still reading (wrong bytes in the frame)" % (f.name, fmt(lin)))
+    res.need(R, 3)
 
 
 def masked_index(f, b, i, idx):
